@@ -46,11 +46,23 @@ def main():
         print("no demonstration test found in the worktree"); sys.exit(2)
     demo = demos[0]
     demo_pkg = "./" + os.path.dirname(demo) if os.path.dirname(demo) else "."
-    # make sure the change is applied
-    rc, o = sh(f"git apply --check -R {patch}", wt)
+    # work in a FRESH worktree of the current /repo HEAD (the harness in /verif follows /repo's hooks, which
+    # may be newer than the seeding worktree): apply the patch there, copy the demo and all verif_*.go hook files
+    fresh = f"/tmp/seedfresh_{sid}"
+    sh(f"git -C /repo worktree remove --force {fresh}", "/")
+    rc, o = sh(f"git -C /repo worktree add -q --detach {fresh} HEAD", "/")
     if rc != 0:
-        rc2, o2 = sh(f"git apply {patch}", wt)
-        print("applied patch:", rc2, o2[:300])
+        print("cannot create fresh worktree:", o); sys.exit(2)
+    sh("cd /repo && find . -name 'verif_*.go' -not -path './.git/*' | while read f; do mkdir -p %s/$(dirname $f); cp $f %s/$f; done" % (fresh, fresh), "/")
+    rc, o = sh(f"git apply {patch}", fresh)
+    if rc != 0:
+        print("patch no longer applies to /repo HEAD:", o[:500]); res["patch_applies_to_head"] = False
+        sh(f"git -C /repo worktree remove --force {fresh}", "/"); sys.exit(3)
+    os.makedirs(os.path.dirname(os.path.join(fresh, demo)) or fresh, exist_ok=True)
+    shutil.copy(os.path.join(wt, demo), os.path.join(fresh, demo))
+    orig_wt = wt
+    wt = fresh
+    res["worktree"] = "fresh worktree of /repo HEAD " + sh("git -C /repo rev-parse --short HEAD", "/")[1].strip() + " + patch.diff"
     # 1. build
     rc, o = sh("go build ./... && go build -tags verif ./...", wt)
     res["build_ok"] = rc == 0
@@ -105,7 +117,7 @@ def main():
     shutil.copy(patch, os.path.join(out, "patch.diff"))
     shutil.copy(os.path.join(wt, demo), os.path.join(out, os.path.basename(demo) + ".txt"))
     meta = {}
-    mp = os.path.join(wt, "seed", "meta.json")
+    mp = os.path.join(orig_wt, "seed", "meta.json")
     if os.path.exists(mp):
         try:
             meta = json.load(open(mp))
@@ -114,6 +126,7 @@ def main():
     meta["validation"] = res
     meta["demo_location"] = demo
     json.dump(meta, open(os.path.join(out, "meta.json"), "w"), indent=1)
+    sh(f"git -C /repo worktree remove --force {fresh}", "/")
     print("DETECTED" if detected else "MISSED", "->", out)
 
 
